@@ -76,7 +76,13 @@ class Gen(object):
         if name == 'Double':
             return r.choice([0.0, -1.0, 1e300, 2.5e-300, 0.1, 12345.6789]) if r.random() < 0.5 else r.uniform(-1e6, 1e6)
         if name == 'String':
-            return r.choice(['', 'a', 'héllo € \U0001F600', 'x' * 127, 'y' * 128, '{"text":"hi"}'])
+            if r.random() < 0.5:
+                return r.choice(['', 'a', 'héllo € \U0001F600', 'x' * 127, 'y' * 128, '{"text":"hi"}'])
+            # text is any sequence of code points: formatting codes (section sign), control characters, byte order marks,
+            # quotes, backslashes, newlines, NUL, non-characters, astral characters
+            specials = ['\u00a7', '\u00a7a', '\n', '\r\n', '\t', '\x00', '\x7f', '\ufeff', '\ufffe', '"', "'", '\\', '/', '%s', '{}', '\u200b',
+                        '\u202e', '\U0010ffff', ' ', '\u00a0', '\u2028']
+            return ''.join(r.choice(specials + ['a', 'Z', '9', '\u00e9']) for _ in range(r.randint(1, 12)))
         if name == 'UUID':
             h = '%032x' % r.getrandbits(128)
             return '%s-%s-%s-%s-%s' % (h[:8], h[8:12], h[12:16], h[16:20], h[20:])
